@@ -51,6 +51,10 @@ TypeByName(n) == prog.types[CHOOSE i \in 1..Len(prog.types) : prog.types[i].name
 FuncNames == {prog.funcs[i].name : i \in 1..Len(prog.funcs)}
 FuncByName(n) == prog.funcs[CHOOSE i \in 1..Len(prog.funcs) : prog.funcs[i].name = n]
 IndexOf(seq, x) == CHOOSE i \in 1..Len(seq) : seq[i] = x
+\* foreign functions declared with package_info (C03): [name (as written in Folang, e.g. "ext.F"), arity, ret |-> literal expression].
+\* A foreign function is modelled as: record its arguments (an event "call:<name>"), return the fixed value.
+ExternNames == {prog.externs[i].name : i \in 1..Len(prog.externs)}
+ExternByName(n) == prog.externs[CHOOSE i \in 1..Len(prog.externs) : prog.externs[i].name = n]
 
 ---------------------------------------------------------------------------
 (* canonical display of a value: the same text is produced by the reflection decoder harness/probe/probe.go *)
@@ -142,6 +146,7 @@ Eval(e, env, out) ==
     [] e.k = "unit" -> Ok(U, out)
     [] e.k = "var"  -> IF e.x \in DOMAIN env THEN Ok(env[e.x], out)
                        ELSE IF e.x \in FuncNames THEN Ok(<<"clo", FuncByName(e.x).params, FuncByName(e.x).body, Empty, <<>>>>, out)
+                       ELSE IF e.x \in ExternNames THEN Ok(<<"ext", e.x, <<>>>>, out)
                        ELSE Ok(<<"bi", e.x, <<>>>>, out)
     [] e.k = "bin"  -> Then(Eval(e.a, env, out), LAMBDA r1 :           \* strict, left operand first
                        Then(Eval(e.b, env, r1.out), LAMBDA r2 : BinOp(e.op, r1.v, r2.v, r2.out)))
@@ -218,6 +223,12 @@ ApplyVal(f, args, out) ==
        ELSE IF Len(all) < n THEN Ok(<<"clo", f[2], f[3], f[4], all>>, out)
        ELSE IF Len(all) = n THEN EvalBlock(f[3], ExtAll(f[4], f[2], all), out)
        ELSE Then(EvalBlock(f[3], ExtAll(f[4], f[2], SubSeq(all, 1, n)), out), LAMBDA r : ApplyVal(r.v, SubSeq(all, n + 1, Len(all)), r.out))
+  ELSE IF f[1] = "ext"
+  THEN LET all == f[3] \o args
+           x == ExternByName(f[2]) IN
+       IF x.arity = 0 THEN Then(Eval(x.ret, Empty, Append(out, <<"call:" \o f[2], "T()">>)), LAMBDA r : r)
+       ELSE IF Len(all) < x.arity THEN Ok(<<"ext", f[2], all>>, out)
+       ELSE Eval(x.ret, Empty, Append(out, <<"call:" \o f[2], Show(<<"tup", all>>)>>))      \* all arguments, in source order
   ELSE LET all == f[3] \o args
            n == BuiltinArity(f[2]) IN
        IF Len(all) < n THEN Ok(<<"bi", f[2], all>>, out) ELSE Builtin(f[2], all, out)
